@@ -17,6 +17,7 @@ import z3
 
 from .values import *   # noqa
 from . import values as V
+from . import qinst
 
 REPO_ROOT = os.environ.get('PYVC_REPO', '/repo')
 
@@ -362,6 +363,8 @@ class Path:
         self.ghost = {}
         self.axiom_ids = set()
         self.covers = []
+        self._quant = False
+        self._quant_seen = 0
 
     def fresh_name(self, prefix):
         n = self.counters.get(prefix, 0)
@@ -387,13 +390,39 @@ class Path:
     def check(self, e=None):
         eng = self.engine
         t0 = time.time()
+        quant = self.has_quant()
+        if quant:
+            self.solver.set('timeout', min(eng.branch_timeout_ms, eng.quant_first_try_ms))
         if e is None:
             r = self.solver.check()
         else:
             r = self.solver.check(e)
+        if quant:
+            self.solver.set('timeout', eng.branch_timeout_ms)
+            if r == z3.unknown:
+                # satisfiability of quantified invariants: decide by instantiation + model validation (qinst.py)
+                from . import qinst
+                st, m, info = qinst.decide(list(self.pc) + ([e] if e is not None else []))
+                eng.stats['qinst_calls'] = eng.stats.get('qinst_calls', 0) + 1
+                if st == 'sat':
+                    r = z3.sat
+                elif st == 'unsat':
+                    r = z3.unsat
+                else:
+                    r = self.solver.check() if e is None else self.solver.check(e)
         eng.stats['solver_calls'] += 1
         eng.stats['solver_time'] += time.time() - t0
         return r
+
+    def has_quant(self):
+        n = len(self.pc)
+        if n != self._quant_seen:
+            from . import qinst
+            for a in self.pc[self._quant_seen:]:
+                if not self._quant and qinst._contains_quant(a):
+                    self._quant = True
+            self._quant_seen = n
+        return self._quant
 
     def feasible(self, e):
         r = self.check(e)
@@ -452,6 +481,7 @@ class Engine:
         self.stats = dict(solver_calls=0, solver_time=0.0, paths=0)
         self.branch_timeout_ms = 5000
         self.prove_timeout_ms = 20000
+        self.quant_first_try_ms = 800      # first attempt on queries with quantified assumptions before qinst takes over
         self.results = []
         self.yield_handlers = []
         self.call_depth = 0
@@ -644,26 +674,42 @@ class Engine:
             goal = z3.BoolVal(False)
         s = p.solver
         s.push()
-        s.set('timeout', self.prove_timeout_ms)
+        quant = p.has_quant() or qinst._contains_quant(goal)
+        s.set('timeout', min(self.prove_timeout_ms, self.quant_first_try_ms) if quant else self.prove_timeout_ms)
         s.add(z3.Not(goal))
         r = s.check()
+        backend = 'z3'
+        reason = ''
+        zmodel = s.model() if r == z3.sat else None
+        if r == z3.unknown and quant:
+            st, m, info = qinst.decide(list(p.pc) + [z3.Not(goal)])
+            self.stats['qinst_calls'] = self.stats.get('qinst_calls', 0) + 1
+            if st == 'sat':
+                r, zmodel, backend, reason = z3.sat, m, 'z3+inst', info
+            elif st == 'unsat':
+                r, backend, reason = z3.unsat, 'z3+inst', info
+            else:
+                s.set('timeout', self.prove_timeout_ms)
+                r = s.check()
+                zmodel = s.model() if r == z3.sat else None
+                reason = 'qinst: ' + info
         dt = time.time() - t0
         self.stats['solver_calls'] += 1
         self.stats['solver_time'] += dt
         model = None
         smt2 = None
         if r == z3.sat:
-            model = self.extract_model(s.model())
+            model = self.extract_model(zmodel)
             status = 'refuted'
         elif r == z3.unsat:
             status = 'proved'
         else:
             status = 'unknown'
             smt2 = s.to_smt2()
-        reason = s.reason_unknown() if r == z3.unknown else ''
+            reason = (s.reason_unknown() + ' ' + reason).strip()
         s.pop()
         s.set('timeout', self.branch_timeout_ms)
-        self.results.append(ObligationResult(name, status, sig, dt, model=model, reason=reason, smt2=smt2))
+        self.results.append(ObligationResult(name, status, sig, dt, model=model, reason=reason, smt2=smt2, backend=backend))
         try:
             p.add(goal)
         except PathEnd:
